@@ -130,7 +130,7 @@ def cases(draw):
     return {'sorts': sorts, 'hooked': hooked, 'syms': {k: list(v) for k, v in syms.items()}, 'use_inj': use_inj, 'rules': rules, 'order': order,
             'init': init, 'trace': trace, 'bad': bad, 'via_hints': draw(st.booleans()),
             'bad_mode': draw(st.sampled_from(['wrong', 'omit'])), 'bad_pick': draw(st.integers(0, 3)),
-            'noise': draw(st.lists(st.integers(0, 5), max_size=8))}
+            'noise': draw(st.lists(st.integers(0, 5), max_size=8)), 'axnoise': draw(st.lists(st.integers(0, 5), max_size=6))}
 
 
 def subst(t, sigma):
@@ -194,7 +194,20 @@ def definition(c):
     if c['use_inj']:
         sents.append(K.SymbolDecl(K.Symbol('inj', (K.SortVar('From'), K.SortVar('To'))), (K.SortVar('From'),), K.SortVar('To'), (K.App('functional'),)))
     ordinal_of = {}
-    for pos, ri in enumerate(c['order']):
+    noise = list(c.get('axnoise', []))
+    n_axioms = 0
+    const0 = sorted(n for n in c['syms'] if c['syms'][n][0] == 0)[0]
+    for ri in c['order']:
+        # axioms that are not rules (each still takes an ordinal): a \\rewrites whose sides are not conjunctions, a plain
+        # pattern, an equation-free implication - the ordinals in a trace are positions among ALL axioms
+        while noise and noise[0] % 3 != 0:
+            k_ = noise.pop(0)
+            s0 = K.SortApp(c['sorts'][0]); a0 = K.App(const0, (), ())
+            sents.append(K.Axiom((), K.Rewrites(s0, a0, a0) if k_ % 3 == 1 else K.Top(s0), ()))
+            n_axioms += 1
+        if noise: noise.pop(0)
+        pos = n_axioms
+        n_axioms += 1
         r = c['rules'][ri]
         s = K.SortApp(r['sort'])
         pat = K.Rewrites(s, K.And(s, (to_kore(r['lhs'], r['sort']), K.Top(s))), K.And(s, (to_kore(r['rhs'], r['sort']), K.Top(s))))
